@@ -80,6 +80,8 @@ fn include_files() -> Vec<(String, String)> {
         ("once.h".to_string(), "#pragma once\nONCE\n".to_string()),
         ("def.h".to_string(), "#define Q QV\n".to_string()),
         ("cond.h".to_string(), "#ifdef D\nIN_D\n#else\nNOT_D\n#endif\n#ifdef Q\nHAS_Q\n#endif\n".to_string()),
+        ("skiponce.h".to_string(), "#if 0\n#pragma once\n#endif\nSKIPONCE\n".to_string()),
+        ("condonce.h".to_string(), "#ifdef Q\n#pragma once\n#endif\nCONDONCE\n".to_string()),
     ]
 }
 
@@ -300,6 +302,13 @@ impl Model {
             "def.h" => {
                 self.macros.retain(|(k, _)| k != "Q");
                 self.macros.push(("Q".into(), "QV".into()));
+            }
+            "skiponce.h" => self.words.push("SKIPONCE".into()),
+            "condonce.h" => {
+                if self.defined("Q") && !self.once_done.iter().any(|f| f == "condonce.h") {
+                    self.once_done.push("condonce.h".into());
+                }
+                self.words.push("CONDONCE".into());
             }
             "cond.h" => {
                 if self.defined("D") {
@@ -971,7 +980,7 @@ fn line_strategy() -> impl Strategy<Value = Line> {
         3 => Just(Line::Text),
         2 => Just(Line::Define),
         1 => prop_oneof![Just("D"), Just("P0"), Just("P1"), Just("Q"), Just("U")].prop_map(|n| Line::Undef(n.to_string())),
-        2 => prop_oneof![Just("inc.h"), Just("once.h"), Just("def.h"), Just("cond.h")].prop_map(|n| Line::Include(n.to_string())),
+        3 => prop_oneof![Just("inc.h"), Just("once.h"), Just("def.h"), Just("cond.h"), Just("skiponce.h"), Just("condonce.h"), Just("once.h"), Just("skiponce.h")].prop_map(|n| Line::Include(n.to_string())),
         1 => Just(Line::PragmaOnce),
     ]
 }
